@@ -53,6 +53,7 @@ FOREIGN_HOME_MODULES = set()     # top-level module names of the package (filled
 FOREIGN_FUNCS = {}    # module-level functions of top-level package modules, likewise (callers import them by name)
 FOREIGN = {}          # method name -> FunctionDef: methods of package classes (defined once in the whole package, not known to the rule tables,
                       # touching only their own object) that callers in other classes / modules may have inlined
+MODINTS = {}          # module -> {name: int} for module-level names bound once to an integer literal (used by CONSTFOLD next to a literal operand)
 PARAM_READONLY = {}   # function / method name -> set of parameter names that every definition of that name only reads (membership, iteration, formatting,
                       # handing on to a parameter that is itself only read): a shared constant display may be passed where a fresh one was (filled by build_foreign)
 IMPORTED_NAMES = set()  # names some module of the package imports from another one (`from .m import X`)
@@ -844,6 +845,7 @@ def _is_chain(e):
     return isinstance(e, ast.Name)
 
 
+_CUR_MODNAME = [None]       # the module being canonicalised
 _CUR_SENTINELS = set()      # the markers of the module being canonicalised
 _CUR_CLEAN_NAMES = set()    # names of the function being canonicalised that cannot hold a marker
 
@@ -1404,7 +1406,7 @@ class FuncCanon(object):
         changed = False
         for blk in _all_blocks(self.fn):
             top = blk is self.fn.body
-            if self.prop(blk) or self.revdisplay(blk) or self.lencomp(blk) or self.star(blk) or self.callsel(blk) or self.tuplepush(blk) or self.sumloop(blk) or self.listcomp(blk) or self.unroll(blk) or self.listbuild(blk) or self.copyinout(blk) or self.copyin(blk) or self.copyprop(blk) or self.initsort(blk) or self.lockwith(blk) or self.flagloop(blk) or self.ifflag(blk) or self.flageq(blk) or self.thread(blk) or self.deadstore(blk) or self.kw(blk) or self.split(blk) or self.retsplit(blk) or self.unindex(blk) or self.yieldsplit(blk) or self.forelse(blk) or self.dowhile(blk) or self.withsink(blk) or self.testsplit(blk) or self.rot(blk) or self.brk(blk, top) or self.wtop(blk) or self.ifs(blk) or self.sink(blk) or self.unpack(blk) or self.fwd(blk):
+            if self.prop(blk) or self.constfold(blk) or self.revdisplay(blk) or self.lencomp(blk) or self.star(blk) or self.callsel(blk) or self.tuplepush(blk) or self.sumloop(blk) or self.listcomp(blk) or self.unroll(blk) or self.listbuild(blk) or self.copyinout(blk) or self.copyin(blk) or self.copyprop(blk) or self.initsort(blk) or self.lockwith(blk) or self.flagloop(blk) or self.ifflag(blk) or self.flageq(blk) or self.thread(blk) or self.deadstore(blk) or self.kw(blk) or self.split(blk) or self.retsplit(blk) or self.unindex(blk) or self.yieldsplit(blk) or self.forelse(blk) or self.dowhile(blk) or self.withsink(blk) or self.testsplit(blk) or self.rot(blk) or self.brk(blk, top) or self.wtop(blk) or self.ifs(blk) or self.sink(blk) or self.unpack(blk) or self.fwd(blk):
                 return True
         return changed
 
@@ -2673,6 +2675,41 @@ class FuncCanon(object):
                             else:
                                 setattr(n, fld, new)
                             self.bump("PROP")
+                            return True
+        return False
+
+    # -- CONSTFOLD -------------------------------------------------------------------------------------------------
+    def constfold(self, blk):
+        """integer arithmetic over literals; `a if <literal> else b` -> the arm"""
+        import operator
+        OPS = {ast.Add: operator.add, ast.Sub: operator.sub, ast.Mult: operator.mul, ast.BitOr: operator.or_, ast.BitAnd: operator.and_, ast.BitXor: operator.xor}
+        for st in blk:
+            for n in self._own_exprs(st):
+                for fld, val in ast.iter_fields(n):
+                    vals = val if isinstance(val, list) else [val]
+                    for k, c in enumerate(vals):
+                        new = None
+                        if isinstance(c, ast.BinOp) and type(c.op) in OPS:
+                            # a module-level integer name next to a literal operand counts as its value
+                            mi = MODINTS.get(_CUR_MODNAME[0], {})
+                            for side, other in (("left", "right"), ("right", "left")):
+                                x, y = getattr(c, side), getattr(c, other)
+                                if isinstance(x, ast.Name) and x.id in mi and x.id not in self.params and not self.stores.get(x.id) and isinstance(y, ast.Constant) and isinstance(y.value, int) and not isinstance(y.value, bool):
+                                    setattr(c, side, ast.copy_location(ast.Constant(value=mi[x.id]), x))
+                        if isinstance(c, ast.BinOp) and type(c.op) in OPS and all(isinstance(x, ast.Constant) and isinstance(x.value, int) and not isinstance(x.value, bool) for x in (c.left, c.right)):
+                            new = ast.Constant(value=OPS[type(c.op)](c.left.value, c.right.value))
+                        elif isinstance(c, ast.BinOp) and isinstance(c.op, (ast.Pow, ast.LShift, ast.RShift)) and all(isinstance(x, ast.Constant) and isinstance(x.value, int) and not isinstance(x.value, bool) for x in (c.left, c.right)) \
+                                and 0 <= c.right.value <= 64 and abs(c.left.value) <= 1 << 64:
+                            new = ast.Constant(value=c.left.value ** c.right.value if isinstance(c.op, ast.Pow) else c.left.value << c.right.value if isinstance(c.op, ast.LShift) else c.left.value >> c.right.value)
+                        elif isinstance(c, ast.IfExp) and isinstance(c.test, ast.Constant):
+                            new = c.body if c.test.value else c.orelse
+                        if new is not None:
+                            new = ast.copy_location(new, c)
+                            if isinstance(val, list):
+                                val[k] = new
+                            else:
+                                setattr(n, fld, new)
+                            self.bump("CONSTFOLD")
                             return True
         return False
 
@@ -5083,6 +5120,93 @@ def _arg_readonly(call, pos, kw, table=None):
 PARAM_DEFS = {}          # function name -> [(FunctionDef, is a method taking self)]
 
 
+def _inline_module_scalars(tree, modname, stats, log):
+    """A module-level name bound once to a number / bytes / str (or a tuple of such), written as a literal or as arithmetic over literals and other
+    such names, is that value wherever the module's functions read it (an immutable value: sharing cannot be told from a fresh literal)."""
+    import operator
+    OPS = {ast.Add: operator.add, ast.Sub: operator.sub, ast.Mult: operator.mul, ast.BitOr: operator.or_, ast.BitAnd: operator.and_, ast.BitXor: operator.xor,
+           ast.LShift: operator.lshift, ast.RShift: operator.rshift, ast.FloorDiv: operator.floordiv, ast.Mod: operator.mod, ast.Pow: operator.pow}
+    once = {}
+    for st in tree.body:
+        if isinstance(st, ast.Assign) and len(st.targets) == 1 and isinstance(st.targets[0], ast.Name):
+            once.setdefault(st.targets[0].id, []).append(st)
+    stores = {}
+    for n in ast.walk(tree):
+        if isinstance(n, ast.Name) and isinstance(n.ctx, (ast.Store, ast.Del)):
+            stores[n.id] = stores.get(n.id, 0) + 1
+        elif isinstance(n, (ast.Global, ast.Nonlocal)):
+            for nm in n.names:
+                stores[nm] = stores.get(nm, 0) + 2
+        elif isinstance(n, (ast.FunctionDef, ast.AsyncFunctionDef, ast.ClassDef)):
+            stores[n.name] = stores.get(n.name, 0) + 2
+            if not isinstance(n, ast.ClassDef):
+                for a_ in n.args.posonlyargs + n.args.args + n.args.kwonlyargs + [x for x in (n.args.vararg, n.args.kwarg) if x is not None]:
+                    stores[a_.arg] = stores.get(a_.arg, 0) + 2          # a parameter of that name somewhere: leave the name alone
+    vals = {}
+
+    class Unk(Exception):
+        pass
+
+    def ev(e, depth=0):
+        if depth > 12:
+            raise Unk()
+        if isinstance(e, ast.Constant) and isinstance(e.value, (int, bytes, str)) and not isinstance(e.value, bool):
+            return e.value
+        if isinstance(e, ast.Tuple):
+            return tuple(ev(x, depth + 1) for x in e.elts)
+        if isinstance(e, ast.Name) and e.id in vals:
+            return vals[e.id]
+        if isinstance(e, ast.BinOp) and type(e.op) in OPS:
+            a_, b_ = ev(e.left, depth + 1), ev(e.right, depth + 1)
+            if not (isinstance(a_, int) and isinstance(b_, int)) or (isinstance(e.op, (ast.Pow, ast.LShift)) and b_ > 64) or (isinstance(e.op, (ast.FloorDiv, ast.Mod)) and b_ == 0):
+                raise Unk()
+            return OPS[type(e.op)](a_, b_)
+        raise Unk()
+    for _round in range(3):
+        for nm, sts in once.items():
+            if nm in vals or len(sts) != 1 or stores.get(nm) != 1 or nm.startswith("__"):
+                continue
+            if isinstance(sts[0].value, ast.Constant) and not (isinstance(sts[0].value.value, int) and not isinstance(sts[0].value.value, bool)):
+                continue          # (plain string / bytes constants are left as names)
+            try:
+                v = ev(sts[0].value)
+            except Unk:
+                continue
+            if isinstance(v, (bytes, str)):
+                continue
+            if isinstance(v, tuple) and not all(isinstance(x, int) and not isinstance(x, bool) for x in v):
+                continue
+            vals[nm] = v
+    # names bound to a plain literal stay names (the rule tables read some of them: CLASS, SUBCLASS, ..); their values serve constant folding only
+    plain = set(nm for nm, sts in once.items() if nm in vals and isinstance(sts[0].value, ast.Constant))
+    MODINTS[modname] = {nm: vals[nm] for nm in plain if isinstance(vals[nm], int)}
+    for nm in plain:
+        del vals[nm]
+    if not vals:
+        return
+
+    def lit(v, at):
+        if isinstance(v, tuple):
+            return ast.copy_location(ast.Tuple(elts=[lit(x, at) for x in v], ctx=ast.Load()), at)
+        return ast.copy_location(ast.Constant(value=v), at)
+    n_done = 0
+    for fn in [x for x in ast.walk(tree) if isinstance(x, (ast.FunctionDef, ast.AsyncFunctionDef))]:
+        for n in list(ast.walk(fn)):
+            for fld, val in ast.iter_fields(n):
+                vlist = val if isinstance(val, list) else [val]
+                for k, c in enumerate(vlist):
+                    if isinstance(c, ast.Name) and isinstance(c.ctx, ast.Load) and c.id in vals:
+                        new = lit(vals[c.id], c)
+                        ast.fix_missing_locations(new)
+                        if isinstance(val, list):
+                            val[k] = new
+                        else:
+                            setattr(n, fld, new)
+                        n_done += 1
+    if n_done:
+        stats["MODSCALAR"] = stats.get("MODSCALAR", 0) + n_done
+
+
 def _arg_readonly_expanded(call, starred, pos, k):
     """as _arg_readonly, for the element that lands at position `pos` once the starred display of k elements is written out"""
     fake = copy.copy(call)
@@ -5280,6 +5404,7 @@ def canonicalise(tree, modname, known, stats=None, log=None):
                 log.append("normalise %s: %s" % (fn.name, e))
 
     _CUR_SENTINELS.clear()
+    _CUR_MODNAME[0] = modname
     once = {}
     for st in tree.body:
         if isinstance(st, ast.Assign) and len(st.targets) == 1 and isinstance(st.targets[0], ast.Name):
@@ -5292,6 +5417,7 @@ def canonicalise(tree, modname, known, stats=None, log=None):
     SENTINELS[modname] = set(_CUR_SENTINELS)
     _module_tables(tree, stats)
     _inline_module_displays(tree, modname, stats, log)
+    _inline_module_scalars(tree, modname, stats, log)
     normalise()
     inl = Inliner(tree, modname, known, stats, log)
     inl.run()
